@@ -17,7 +17,7 @@ REAL_THOROUGH = [{'kind': 'close_join', 'n': 1, 'applies': 0, 'map': 0, 'imap': 
 
 
 def run(res):
-    res.proof_step('Props/C07.v', extra_targets=['Model/Pool.vo'])
+    res.proof_step('Props/C07.v', extra_targets=['Model/Pool.vo'], kernels_needed=['G_pool_shape'])
     n = 150 if res.tier == 'quick' else 6000
     if res.broken:
         n = max(n, 1500)      # failing-input search on the implementation
